@@ -36,13 +36,14 @@ from .common import corpus_lines
 
 PROPERTY = "C06"
 LEAN_MODULES = ["BaizeVerif.Props.C06"]
-MODEL_MODULES = ["BaizeVerif.Model.Stream", "BaizeVerif.Model.StreamAsgi"]
+MODEL_MODULES = ["BaizeVerif.Model.Stream", "BaizeVerif.Model.StreamAsgi", "BaizeVerif.Model.StreamWsgi"]
 DRIVER_OPS = {
     "wsgi_sched": "Stream.runSched",
     "wsgi_real": "Stream.runReal",
     "wsgi_busy": "Stream.runBusy",
     "wsgi_encfail": "Stream.runEncfail",
     "asgi_trace": "StreamAsgi.runTrace",
+    "wsgi_stream": "StreamWsgi.runStream",
 }
 THEOREMS = [
     "Baize.Stream.w_no_deadlock",
@@ -59,6 +60,7 @@ THEOREMS = [
     "Baize.Stream.w_no_deadlock_witness_midstep",
     "Baize.Stream.w_no_deadlock_witness_consfail",
     "Baize.Stream.source_pinned",
+    "Baize.StreamWsgi.ws_stream_terminates_and_releases",
     "Baize.StreamAsgi.s_no_deadlock",
     "Baize.StreamAsgi.s_rank_decreases",
     "Baize.StreamAsgi.s_rank_bounded",
@@ -1317,6 +1319,11 @@ def sched_line(n, fails, sched):
 def cases(rng, tier):
     yield from corpus_lines(PROPERTY)
     thorough = tier == "thorough"
+    # (0) WSGI StreamResponse (`yield from`): every producer length x close point x ending, against its model
+    for n in range(0, 9 if thorough else 6):
+        for k in range(0, n + 3):
+            for fails in (0, 1):
+                yield "wsgi_stream %d %d %d" % (n, k, fails)
     # (1) every schedule of enabled steps up to a depth, enumerated on the real code
     plan = [(0, 0, 8, 600), (0, 1, 8, 600), (1, 0, 11, 2500), (1, 1, 10, 1500), (2, 0, 12, 3000), (3, 0, 11, 2000)]
     if thorough:
@@ -1387,10 +1394,6 @@ def extra(rng, tier):
     stats = {}
     lines = []
     top = 6 if tier == "thorough" else 4
-    for n in range(0, top):
-        for k in range(0, n + 2):
-            for fails in (0, 1):
-                lines.append("wsgi_stream %d %d %d" % (n, k, fails))
     for kind in ("asgi_stream", "asgi_sse"):
         for n in range(0, top):
             for d in range(0, n + 2):
@@ -1441,8 +1444,9 @@ MANIFEST = {
     "note": "Trusted: Lean kernel (propext, Classical.choice, Quot.sound only), tools/extract.py, the parking shim "
             "(it replaces queue.Queue and the executor in forced runs; the watchdog runs use the real ones). Not "
             "modelled: OS thread fairness, wall-clock ping timing, queue.Queue's internal locking, asyncio internals "
-            "beyond the cancellation rule, producers whose own cleanup awaits; WSGI StreamResponse (`yield from`) is "
-            "checked by the runtime oracle only.",
+            "beyond the cancellation rule, producers whose own cleanup awaits.  WSGI StreamResponse (`yield from`) has its own "
+            "small model (Model/StreamWsgi.lean: Python's generator delegation rule) and theorem "
+            "ws_stream_terminates_and_releases.",
     "design": "C06",
 }
 CORRESPONDENCE = ("Baize.Stream.macroStep / fairRun  vs  baize.wsgi.responses.SendEventResponse under a forced scheduler "
@@ -1468,7 +1472,7 @@ ASSUMPTIONS = [
     "an enabled thread / ready task eventually runs (no other fairness)",
     "a producer that was never started has no cleanup to run (relay cancelled before its first step)",
 ]
-PARTIAL = ("WSGI StreamResponse (`yield from iterable`) has no Lean model: runtime oracle only.  The ASGI models treat "
+PARTIAL = ("The ASGI models treat "
            "the relay's `await g.aclose()` as non-suspending (a producer whose cleanup awaits is not modelled).  "
            "Forced-schedule replay is at queue/future-call granularity; interleavings of the should_stop flag finer "
            "than that are covered by the proofs only.")
